@@ -28,11 +28,14 @@ use serde_json::{json, Value};
 
 type Rd<'a> = EndianSlice<'a, RunTimeEndian>;
 
+#[path = "c03_corpus.rs"]
+mod corpus;
+
 pub fn info() -> PropInfo {
     PropInfo {
         id: "C03",
         level: "exploration",
-        rule: "Units are assembled by gen::info (independent byte assembler + model). Exhaustive catalogues: (single) every form x all 64 encodings {le,be}x{32,64}x{v2..5}x{addr 1,2,4,8} x the form's boundary payload set (0,1,max,sign boundaries, byte-order pattern, canonical and padded 1/2/3/9/10-byte LEB128, blocks/strings of 0,1,127,128,255,256,65535,65536,70000 bytes), alone and between two fixed-size neighbours; (indirect) every final form (incl. implicit_const, which must be rejected, and undefined codes) behind 1..3 nested DW_FORM_indirect x 64 encodings, canonical and padded form codes; (pair) every ordered pair of forms as one abbreviation's attribute list x 64 encodings; (names) every attribute name with a normalisation rule + 55 without x one form per value class (29) x 4 payloads x 16 encodings {le,be}x{32,64}x{v2..5}; (linefmt) every form as a v5 directory/file entry format per content type. Seeded random: triples and attribute lists of length 0..12 over several DIEs and units. A case is non-trivial when at least one attribute with at least one encoded byte (or an implicit constant) is decoded; distinct = digest of (.debug_abbrev, .debug_info/.debug_types) bytes. The dbg profile runs a seed-rotated 1/8 slice of pair/names and 1/4 of single/indirect.",
+        rule: "Units are assembled by gen::info (independent byte assembler + model). Exhaustive catalogues: (single) every form x all 64 encodings {le,be}x{32,64}x{v2..5}x{addr 1,2,4,8} x the form's boundary payload set (0,1,max,sign boundaries, byte-order pattern, canonical and padded 1/2/3/9/10-byte LEB128, blocks/strings of 0,1,127,128,255,256,65535,65536,70000 bytes), alone and between two fixed-size neighbours; (indirect) every final form (incl. implicit_const, which must be rejected, and undefined codes) behind 1..3 nested DW_FORM_indirect x 64 encodings, canonical and padded form codes; (pair) every ordered pair of forms as one abbreviation's attribute list x 64 encodings; (names) every attribute name with a normalisation rule + 55 without x one form per value class (29) x 4 payloads x 16 encodings {le,be}x{32,64}x{v2..5}; (linefmt) every form as a v5 directory/file entry format per content type. Seeded random: triples and attribute lists of length 0..12 over several DIEs and units. A case is non-trivial when at least one attribute with at least one encoded byte (or an implicit constant) is decoded; distinct = digest of (.debug_abbrev, .debug_info/.debug_types) bytes. The dbg profile runs a seed-rotated 1/8 slice of pair/names and 1/4 of single/indirect. Corpus complement (stream `corpus`, props/c03_corpus.rs): three small C/C++ sources are compiled at check time (quick: gcc -gdwarf-5 -O2, clang -gdwarf-5 -O2, gcc -gdwarf-2 -O2, clang -gdwarf-4 -O1 -fdebug-types-section -gsplit-dwarf; thorough: {gcc 12, clang 14} x -gdwarf-{2,3,4,5} x {-O0,-O2}, gcc -gdwarf64, -fdebug-types-section, -gsplit-dwarf .dwo objects read through Dwarf::make_dwo + Unit::copy_relocated_attributes) and every attribute of every entry of the linked executable and of every .dwo is compared with `llvm-dwarfdump -v --debug-info --debug-types`: attribute name code, form code, and the decoded value for constants, flags, strings (pool offset / index and resolved text), addresses (index and resolved address), references (unit-relative and absolute), ref_sig8, section offsets, rnglistx/loclistx (index and resolved offset), non-expression blocks, names of enumerated constants, file names of decl_file/call_file, first operation of expressions; one evaluation per unit, distinct by digest of the object's debug sections.",
         assumptions: &[
             "every form is decoded by its own definition in every unit version (a DWARF 5 form inside a version 2 unit is not an error); the version only matters for DW_FORM_ref_addr and the legacy data4/data8 section-offset rule",
             "legacy section-offset names are those of DESIGN.md Appendix A.2 (location, stmt_list, string_length, return_addr, start_scope, frame_base, macro_info, macros, segment, static_link, use_location, vtable_elem_location, ranges; data_member_location for versions 2-3)",
@@ -40,6 +43,7 @@ pub fn info() -> PropInfo {
             "the variant chosen by value() (e.g. Udata vs FileIndex) and the error variant for rejected input are secondary observations; only the payload / the fact of rejection is judged",
             "undefined form codes are only required not to panic (rejection is a secondary observation)",
             "usize is 64 bits on this host",
+            "corpus: llvm-dwarfdump 14 is the oracle; tool failures (compiler, packager, dumper, unparsable text) are inconclusive; normalisations: attribute/form names are mapped to codes through gimli's constant-name tables (a name unknown to them is counted unjudged); data forms are printed unsigned and sdata/implicit_const signed by llvm and compared as such with raw_value(); data4/data8/sec_offset location-list values are compared by their leading offset; enumerated constants printed by name are compared with the name of the typed constant value() yields (unjudged when value() is not typed); decl_file/call_file printed as a path must end with the path_name of the file entry value()'s FileIndex selects; for expressions (exprloc, blocks of location attributes) only the first operation's name is compared; addrx in a .dwo (llvm prints <unresolved>) is compared with the 8-byte slot of the executable's .debug_addr at the DW_AT_addr_base / DW_AT_GNU_addr_base llvm prints for the skeleton unit with the same DWO id; data16 is compared as the 16 bytes in section order (the corpus is little-endian); any other rendering is counted unjudged",
         ],
         exhaustive_subspaces: &[
             "form x 64 encodings x boundary payload set (single)",
@@ -70,6 +74,10 @@ const MUST: &[&str] = &[
     "accessor.sdata.negative", "accessor.udata.none_for_negative", "leb.padded", "block.70000", "string.70000",
     "enc.le/32/v2/a1", "enc.be/64/v5/a8", "enc.le/64/v2/a2", "enc.be/32/v3/a4",
     "linefmt.path", "linefmt.directory_index", "linefmt.timestamp", "linefmt.size", "linefmt.md5", "linefmt.source", "linefmt.unsupported_form",
+    "corpus.object", "corpus.object.dwo", "corpus.attr.compared", "corpus.unit.v2", "corpus.unit.v4", "corpus.unit.v5", "corpus.unit.type",
+    "corpus.addr", "corpus.addrx", "corpus.addrx.dwo", "corpus.data1", "corpus.data2", "corpus.data4", "corpus.data8", "corpus.sdata", "corpus.implicit_const",
+    "corpus.sec_offset", "corpus.flag", "corpus.string", "corpus.strp", "corpus.line_strp", "corpus.strx", "corpus.GNU_str_index", "corpus.ref", "corpus.ref_sig8",
+    "corpus.rnglistx", "corpus.loclistx", "corpus.block", "corpus.expr.first_op", "corpus.named_constant", "corpus.file_name", "corpus.data16",
 ];
 
 // ------------------------------------------------------------------ observation (gimli side)
@@ -1122,4 +1130,5 @@ pub fn run(ctx: &mut Ctx) {
     names(ctx);
     random_lists(ctx);
     linefmt(ctx);
+    corpus::run(ctx);
 }
